@@ -235,8 +235,9 @@ func (i *interpreter) lookupSym(instr *ssa.Lookup, x, idx value) value {
 // Standard-library stubs
 
 type mutexState struct {
-	writer  bool
-	readers int
+	writer         bool
+	readers        int
+	waitingWriters int
 }
 
 type sideTables struct {
@@ -248,6 +249,7 @@ type sideTables struct {
 	atomicVal map[*value]value
 	prng      map[*value]*prngState
 	pools     map[*value][]value
+	seeds     map[*value]value
 	pcs       []stackEntry
 }
 
@@ -321,7 +323,12 @@ func registerStdStubs(sh *Shared) {
 		fr.i.syncPoint(fr, "lock")
 		m := fr.i.mutexOf(args[0])
 		if m.writer || m.readers > 0 {
-			fr.i.blockOn(fr, func() bool { return !m.writer && m.readers == 0 }, "Lock")
+			// sync.RWMutex: a blocked Lock call excludes new readers from acquiring the lock
+			m.waitingWriters++
+			func() {
+				defer func() { m.waitingWriters-- }()
+				fr.i.blockOn(fr, func() bool { return !m.writer && m.readers == 0 }, "Lock")
+			}()
 		}
 		m.writer = true
 		fr.i.hbAcquire(fr, args[0])
@@ -339,8 +346,8 @@ func registerStdStubs(sh *Shared) {
 	rlock := func(fr *frame, args []value) value {
 		fr.i.syncPoint(fr, "rlock")
 		m := fr.i.mutexOf(args[0])
-		if m.writer {
-			fr.i.blockOn(fr, func() bool { return !m.writer }, "RLock")
+		if m.writer || m.waitingWriters > 0 {
+			fr.i.blockOn(fr, func() bool { return !m.writer && m.waitingWriters == 0 }, "RLock")
 		}
 		m.readers++
 		fr.i.hbAcquireShared(fr, args[0])
@@ -798,7 +805,16 @@ func registerStdStubs(sh *Shared) {
 
 	// --- hash/maphash: the environment's entropy ---
 	reg("(*hash/maphash.Hash).Sum64", func(fr *frame, args []value) value {
-		return fr.i.nondet("env.maphash", types.Uint64, "U64")
+		// contract of the entropy source: every value is fresh (pairwise distinct within a process)
+		v := fr.i.nondet("env.maphash", types.Uint64, "U64")
+		if sv, ok := v.(sym); ok {
+			e := fr.i.ex
+			for _, old := range fr.i.entropy {
+				e.addPC(e.pool.Not(e.pool.Eq(sv.t, old)))
+			}
+			fr.i.entropy = append(fr.i.entropy, sv.t)
+		}
+		return v
 	})
 
 	// During per-path package initialisation the default rune tables are truncated to
@@ -844,12 +860,26 @@ func registerStdStubs(sh *Shared) {
 	// jsf64: with a concrete state the real code runs; with a symbolic seed the PRNG output is
 	// an arbitrary word sequence that is a function of the seed term (same seed term, same words).
 	reg("(*"+mainPath+".jsf64ctx).init", func(fr *frame, args []value) value {
+		if fr.i.side().seeds == nil {
+			fr.i.side().seeds = map[*value]value{}
+		}
+		fr.i.side().seeds[args[0].(*value)] = args[1]
 		if _, ok := args[1].(sym); !ok {
 			delete(fr.i.side().prng, args[0].(*value))
 			return callMethodReal(fr, "jsf64ctx", "init", args)
 		}
 		fr.i.side().prng[args[0].(*value)] = &prngState{seed: args[1].(sym).t}
 		return nil
+	})
+	// streamSeed(r): the seed the PRNG of stream r was last initialised with
+	reg(mainPath+".streamSeed", func(fr *frame, args []value) value {
+		ptr := args[0].(*value)
+		st := (*ptr).(structure)
+		key := &st[fieldIndex(fr.i.shared.main.Type("randomBitStream").Type(), "ctx")]
+		if v, ok := fr.i.side().seeds[key]; ok {
+			return v
+		}
+		return uint64(0)
 	})
 	reg("(*"+mainPath+".jsf64ctx).rand", func(fr *frame, args []value) value {
 		st := fr.i.side().prng[args[0].(*value)]
